@@ -236,12 +236,23 @@ class Obligations:
         return not self.failed
 
 
+# property -> further modules under Pk/Props whose theorems are obligations of that property as well
+EXTRA_PROPS = {
+    "C06": ["MgrReach"], "C09": ["MgrReach"], "C10": ["MgrReach"], "C13": ["MgrReach"], "C16": ["MgrReach"],
+    "C15": ["C15Full"], "C01": ["C01Full"], "C07": ["C07Full"],
+}
+
+
 def check_obligations(prop, extra_modules=(), leanchecker=False):
     """build Pk.Props.<prop>, audit every theorem in it. Obligations = theorems of the Props file."""
     ob = Obligations()
     mod = "Pk.Props.%s" % prop
     pf = os.path.join(LEAN, "Pk", "Props", "%s.lean" % prop)
     ob.names = theorem_names(pf)
+    # further property modules whose theorems belong to this property's obligations
+    more = [m for m in EXTRA_PROPS.get(prop, []) if os.path.exists(os.path.join(LEAN, "Pk", "Props", m + ".lean"))]
+    more_names = {m: theorem_names(os.path.join(LEAN, "Pk", "Props", m + ".lean")) for m in more}
+    extra_modules = list(extra_modules) + ["Pk.Props." + m for m in more]
     ok, log = lake_build([mod, "pkmodel"] + list(extra_modules))
     ob.log = log
     if not ok:
@@ -255,6 +266,10 @@ def check_obligations(prop, extra_modules=(), leanchecker=False):
         ob.failed = [(n, "forbidden token in lean/Pk: " + hits[0]) for n in ob.names]
         return ob
     res, alog = audit_axioms(mod, ob.names)
+    for m in more:
+        r2, _ = audit_axioms("Pk.Props." + m, more_names[m])
+        res.update(r2)
+        ob.names = ob.names + [n for n in more_names[m] if n not in ob.names]
     for n in ob.names:
         ax = res.get(n)
         if ax is None:
@@ -265,7 +280,7 @@ def check_obligations(prop, extra_modules=(), leanchecker=False):
             ob.failed.append((n, "depends on axioms %s" % bad))
         ob.axioms.update(ax)
     if leanchecker and ob.ok:
-        rc, o, e = sh(["lake", "env", "leanchecker", mod], cwd=LEAN, timeout=3600)
+        rc, o, e = sh(["lake", "env", "leanchecker", mod] + ["Pk.Props." + m for m in more], cwd=LEAN, timeout=3600)
         if rc != 0:
             ob.failed = [(n, "leanchecker rejected %s: %s" % (mod, (o + e)[-300:])) for n in ob.names]
     return ob
